@@ -1,7 +1,9 @@
 """C02 — SWC reading keeps every data row, in order, or fails loudly."""
 import io
 import os
+import re
 import shutil
+import sys
 import tempfile
 import warnings
 
@@ -202,6 +204,80 @@ def place_bad_bytes(rng, data, place):
     return starts[k] + j + 1, 0, b""
 
 
+# --- any whitespace ------------------------------------------------------------------------------------------------------------------------
+# "any whitespace": the line grammar separates fields by whitespace, and a line ends at LF / CR LF. Every character that is whitespace
+# (str.isspace(), which is what `\\s` means for text) and is not a line end may therefore stand wherever a blank may stand — between two
+# fields, at either edge of a line, in front of trailing extra fields, inside a comment, on an otherwise blank line — without changing
+# which rows and comments the text has. The set is computed, not listed: VT, FF, the ASCII separators FS/GS/RS/US, NEL, NBSP, the Unicode
+# spaces, LINE / PARAGRAPH SEPARATOR, … Every one of them is used in every run, at the places walked round-robin.
+WS_PLACES = ["separator", "line-edge", "before-tail", "comment", "blank-line"]
+WS_VIAS = ["text", "bytes", "path", "tree", "population", "population-iter", "lazy-list", "populations", "populations-chain"]
+_WS_CHARS = []
+
+
+def ws_chars():
+    if not _WS_CHARS:
+        _WS_CHARS.extend(chr(c) for c in range(sys.maxunicode + 1) if chr(c).isspace() and chr(c) not in " \t\n\r")
+    return list(_WS_CHARS)
+
+
+def ws_group(ch):
+    return "ascii" if ord(ch) < 0x80 else ("latin1" if ord(ch) < 0x100 else "unicode")
+
+
+def ws_run(rng, ch):
+    """a run of whitespace containing `ch`, alone or among blanks"""
+    return rng.choice([ch, ch, ch, ch + " ", " " + ch, "\t" + ch, ch + ch, " " + ch + " ", ch + "\t"])
+
+
+def spell_row(rng, i, p):
+    return ws(rng).join([str(i), str(rng.randint(0, 7))] + [spell_float(rng)[0] for _ in range(4)] + [str(p)])
+
+
+def ws_text(rng, ids, pids, ch, place, nx=0):
+    """a text of the line grammar in which the whitespace character `ch` stands at `place`; returns (text, rows, comments)"""
+    text, rows, _ = make_text(rng, ids, pids, n_extra=nx)
+    eol = "\r\n" if "\r\n" in text else "\n"
+    ls = text.split(eol)
+    last = ls.pop()                     # "" when the text ends with a line end
+    if last:
+        ls.append(last); last = None
+    is_comment = lambda l: l.lstrip(" \t").startswith("#")
+    data = [k for k, l in enumerate(ls) if l.strip(" \t") and not is_comment(l)]
+    some = lambda pool, hi: rng.sample(pool, rng.randint(1, min(hi, len(pool))))
+    if place == "separator":
+        for k in some(data, 3):
+            gaps = list(re.finditer(r"(?<=[^ \t])[ \t]+(?=[^ \t])", ls[k]))
+            chosen = {g.start() for g in some(gaps, 3)}
+            ls[k] = re.sub(r"(?<=[^ \t])[ \t]+(?=[^ \t])", lambda m: ws_run(rng, ch) if m.start() in chosen else m.group(0), ls[k])
+    elif place == "line-edge":
+        for k in some([k for k, l in enumerate(ls) if l.strip(" \t")], 2):
+            side = rng.choice(["lead", "trail", "both"])
+            ls[k] = (ws_run(rng, ch) if side != "trail" else "") + ls[k] + (ws_run(rng, ch) if side != "lead" else "")
+    elif place == "before-tail":
+        # fields beyond the requested columns: any numbers — a few, many, or as many as a row of their own has
+        for k in some(data, 2):
+            if rng.random() < 0.5:
+                tail = spell_row(rng, rng.randint(0, 99), rng.choice([-1, rng.randint(0, 99)]))
+                if rng.random() < 0.3:
+                    tail += " " + str(rng.randint(0, 9))
+            else:
+                tail = " ".join((str(rng.randint(0, 9)) if rng.random() < 0.5 else spell_float(rng)[0]) for _ in range(rng.randint(1, 9)))
+            ls[k] = ls[k].rstrip(" \t") + ws_run(rng, ch) + tail + ws(rng, False)
+    elif place == "comment":
+        for _ in range(rng.randint(1, 2)):
+            pre = rng.choice([" removed:", " see", "", " node", " soma ", "x"])
+            post = (rng.choice(["", " "]) + spell_row(rng, rng.randint(0, 99), rng.choice([-1, rng.randint(0, 99)]))) if rng.random() < 0.5 \
+                else rng.choice([" traced by hand", "", "7", " # more", " 1 2 3"])
+            ls.insert(rng.randrange(len(ls)), ws(rng, False) + "#" + pre + ws_run(rng, ch) + post)
+    else:
+        for _ in range(rng.randint(1, 2)):
+            ls.insert(rng.randrange(len(ls)), ws_run(rng, ch))
+    comments = [l[l.index("#") + 1:] for l in ls if l.lstrip().startswith("#")]
+    text = eol.join(ls) + (eol if last is not None else "")
+    return text, rows, comments
+
+
 class Read(Suite):
     name = "c02.read"
 
@@ -332,6 +408,28 @@ class Read(Suite):
                 case["text"] = text
                 out.append(case)
             nb += 1      # the next round pairs every (entry, place) with the next kind
+        # any whitespace: every whitespace character that is not a line end, at every place a blank may stand, through every way of reading
+        chars = ws_chars()
+        vias = WS_VIAS[:]
+        j = 0
+        for rnd in range(8 if big else 2):
+            rng.shuffle(chars); rng.shuffle(vias)
+            for ch in chars:
+                place = WS_PLACES[(j + rnd) % len(WS_PLACES)]
+                via = vias[j % len(vias)]; j += 1
+                pids = gen.parents_sorted(rng, rng.choice([1, 2, 3, 5]), gen.pick_shape(rng, k)); k += 1
+                base = rng.choice([0, 1, 1, 5])
+                nx = rng.choice([0, 0, 1]) if via in ("text", "bytes", "path") else 0
+                text, rows, comments = ws_text(rng, [i + base for i in range(len(pids))], [-1 if p < 0 else p + base for p in pids], ch, place, nx)
+                case = {"class": f"ws/{place}/{ws_group(ch)}", "ws_cp": ord(ch), "ws_place": place, "rows": rows, "comments": comments, "n_extra": nx,
+                        "bad": None, "text": text}
+                if via in ("text", "bytes", "path"):
+                    case.update({"mode": "plain", "source": via, "reset_index": rng.random() < 0.5})
+                    if via != "text" and rng.random() < 0.3:     # the `encoding` option, the file stored in that encoding
+                        case["encoding"] = rng.choice(["utf-8", "utf-16"] + (["latin-1"] if ord(ch) < 0x100 else []))
+                else:
+                    case.update({"mode": "entry", "entry": via, "source": rng.choice(["bytes", "path"]) if via == "tree" else "path", "reset_index": True})
+                out.append(case)
         return out
 
     def run(self, case):
@@ -466,6 +564,12 @@ class Read(Suite):
             shutil.rmtree(tmp, ignore_errors=True)
 
     def oracle(self, case, res):
+        try:
+            return self._oracle(case, res)
+        except Exception as e:  # noqa: BLE001 - a result the oracle cannot even read (missing column, wrong size, None) is not what the file says
+            return [("malformed-output", f"the result of the read cannot be compared with the file ({type(e).__name__}: {e}); result {str(res)[:200]}")]
+
+    def _oracle(self, case, res):
         rows = case["rows"]
         mode = case["mode"]
         if mode == "entry":
